@@ -215,6 +215,28 @@ func runOverlayTest(repo, pkgRel, testSrc, runName string, tags string) (string,
 	return string(out), err
 }
 
+// runOverlayTestV: like runOverlayTest with -v (to collect log lines).
+func runOverlayTestV(repo, pkgRel, testSrc, runName string) (string, error) {
+	tmp, err := os.MkdirTemp("", "govcbounded")
+	if err != nil {
+		return "", err
+	}
+	defer os.RemoveAll(tmp)
+	tf := filepath.Join(tmp, "zz_govc_bounded_test.go")
+	os.WriteFile(tf, []byte(testSrc), 0o644)
+	ov := map[string]map[string]string{"Replace": {filepath.Join(repo, pkgRel, "zz_govc_bounded_test.go"): tf}}
+	ovb, _ := json.Marshal(ov)
+	ovf := filepath.Join(tmp, "ov.json")
+	os.WriteFile(ovf, ovb, 0o644)
+	ctx, cancel := context.WithTimeout(context.Background(), 150*time.Second)
+	defer cancel()
+	cmd := exec.CommandContext(ctx, "go", "test", "-overlay", ovf, "-vet=off", "-count=1", "-timeout", "120s", "-v", "-run", "^"+runName+"$", "./"+pkgRel)
+	cmd.Dir = repo
+	cmd.Env = append(os.Environ(), "GOFLAGS=-mod=mod", "GOPROXY=off", "GOSUMDB=off", "GOTOOLCHAIN=local")
+	out, err := cmd.CombinedOutput()
+	return string(out), err
+}
+
 func cmdReplay(args []string) int {
 	if len(args) < 1 {
 		fmt.Fprintln(os.Stderr, "usage: govc replay <file>")
